@@ -22,7 +22,7 @@ try:
 except ImportError:  # no lzma
     pass
 else:
-    _known_compressions['.xz'] = lzma.LZMAFile
+    _known_compressions['xz'] = lzma.LZMAFile
 
 
 @contextmanager
